@@ -1604,3 +1604,79 @@ func fieldOfStructValueOrAddr(base ssa.Value, i int, at ssa.Instruction) ([]orig
 	}
 	return fieldOfStructValue(base, i, at, 0)
 }
+
+// rangeSliceOf: hdr is the header of a `for i/_, x := range S` loop over a slice (the rotated range loop go/ssa
+// builds: index phi, `i+1 < len(S)` test); returns S.
+func rangeSliceOf(hdr *ssa.BasicBlock) ssa.Value {
+	if len(hdr.Instrs) == 0 {
+		return nil
+	}
+	iff, ok := hdr.Instrs[len(hdr.Instrs)-1].(*ssa.If)
+	if !ok {
+		return nil
+	}
+	bo, ok := iff.Cond.(*ssa.BinOp)
+	if !ok || bo.Op != token.LSS {
+		return nil
+	}
+	cl, ok := bo.Y.(*ssa.Call)
+	if !ok || calleeFullName(&cl.Call) != "builtin len" || len(cl.Call.Args) != 1 {
+		return nil
+	}
+	if _, isSlice := cl.Call.Args[0].Type().Underlying().(*types.Slice); !isSlice {
+		return nil
+	}
+	// the left side is the incremented index phi of this header
+	inc, ok := bo.X.(*ssa.BinOp)
+	if !ok || inc.Op != token.ADD {
+		return nil
+	}
+	if ph, ok := inc.X.(*ssa.Phi); !ok || ph.Block() != hdr {
+		return nil
+	}
+	return strip(cl.Call.Args[0])
+}
+
+// mustPassEdgesForall: every path to blk traverses one of pass - or blk sits in a range loop over a slice S that is
+// preceded by another range loop over the same S in which every iteration either traverses one of pass or leaves the
+// function (validate every element first, then act on every element: the all-or-nothing shape of multi-item commands).
+func mustPassEdgesForall(f *ssa.Function, blk *ssa.BasicBlock, pass map[edge]bool) bool {
+	if mustPassEdges(f, blk, pass) {
+		return true
+	}
+	if len(pass) == 0 {
+		return false
+	}
+	for h2 := blk; h2 != nil; h2 = h2.Idom() {
+		if !isLoopHeader(h2) || !loopBlocks(h2)[blk] {
+			continue
+		}
+		s2 := rangeSliceOf(h2)
+		if s2 == nil {
+			continue
+		}
+		for _, h1 := range f.Blocks {
+			if h1 == h2 || !isLoopHeader(h1) || !h1.Dominates(h2) {
+				continue
+			}
+			lb := loopBlocks(h1)
+			if lb[h2] || rangeSliceOf(h1) != s2 || len(h1.Succs) != 2 {
+				continue
+			}
+			outside := map[*ssa.BasicBlock]bool{}
+			for _, b := range f.Blocks {
+				if !lb[b] {
+					outside[b] = true
+				}
+			}
+			body := h1.Succs[0]
+			if !lb[body] || body == h1 {
+				continue
+			}
+			if !reach(body, pass, outside)[h1] {
+				return true
+			}
+		}
+	}
+	return false
+}
